@@ -99,6 +99,11 @@ func (c *TableWriter) WriteRun(entries iter.Seq[kv.Entry], targetSize uint64) ([
 		for buffer.size < int(targetSize) {
 			entry, ok := next()
 			if !ok {
+				if len(buffer.entries) == 0 {
+					// The run ended exactly at a table boundary; an empty table
+					// cannot be read back (its footer would be taken for entries).
+					return tables, nil
+				}
 				t, err := c.Write(buffer.all())
 				if err != nil {
 					return nil, err
@@ -116,6 +121,11 @@ func (c *TableWriter) WriteRun(entries iter.Seq[kv.Entry], targetSize uint64) ([
 		for buffer.size < maxBufferSize {
 			entry, ok := next()
 			if !ok {
+				if len(buffer.entries) == 0 {
+					// The run ended exactly at a table boundary; an empty table
+					// cannot be read back (its footer would be taken for entries).
+					return tables, nil
+				}
 				t, err := c.Write(buffer.all())
 				if err != nil {
 					return nil, err
